@@ -92,6 +92,20 @@ func registerBytealg(ex *Exec) {
 		eq := ex.strEq(a, b)
 		return C.Ite(eq, C.BVConst(0, 64), C.Ite(lt, C.BVConst(^uint64(0), 64), C.BVConst(1, 64))), true
 	}
+	I["internal/abi.NoEscape"] = func(ex *Exec, st *State, args []Value, call ssa.CallInstruction) (Value, bool) {
+		return args[0], true
+	}
+	I["(*strings.Builder).copyCheck"] = func(ex *Exec, st *State, args []Value, call ssa.CallInstruction) (Value, bool) {
+		return nil, true
+	}
+	I["(*strings.Builder).String"] = func(ex *Exec, st *State, args []Value, call ssa.CallInstruction) (Value, bool) {
+		p := args[0].(Ptr)
+		if p.Obj == 0 {
+			ex.goPanic(st, "nil pointer dereference")
+		}
+		buf := ex.load(st, p.field(1)).(Slice)
+		return Str{ex.bytesOf(st, buf)}, true
+	}
 	I["strings.HasPrefix"] = func(ex *Exec, st *State, args []Value, call ssa.CallInstruction) (Value, bool) {
 		s, p := args[0].(Str), args[1].(Str)
 		if len(p.B) > len(s.B) {
